@@ -192,7 +192,7 @@ package statebackend
 //@   nosafe
 //@   logged
 //@   requires block != nil && block.Header != nil
-//@   assigns core.calls_BucketPut, core.arg_BucketPut_database, core.arg_BucketPut_key, core.arg_BucketPut_value, core.l1Hashed, core.calls_WriteL1HandlerTxnHashByMsgHash, core.arg_WriteL1HandlerTxnHashByMsgHash_w, core.arg_WriteL1HandlerTxnHashByMsgHash_msgHash, core.arg_WriteL1HandlerTxnHashByMsgHash_l1HandlerTxnHash, calls_WriteBlockHeader, arg_WriteBlockHeader_w, arg_WriteBlockHeader_header, calls_WriteTxs, arg_WriteTxs_w, arg_WriteTxs_blockNumber, arg_WriteTxs_transactions, arg_WriteTxs_receipts, calls_WriteStateUpdate, arg_WriteStateUpdate_w, arg_WriteStateUpdate_blockNum, arg_WriteStateUpdate_stateUpdate, calls_WriteCommitment, arg_WriteCommitment_w, arg_WriteCommitment_blockNum, arg_WriteCommitment_commitment, calls_WriteL1Msgs, arg_WriteL1Msgs_w, arg_WriteL1Msgs_txns, calls_storeCasmHashMetadata, arg_storeCasmHashMetadata_reader, arg_storeCasmHashMetadata_writer, arg_storeCasmHashMetadata_blockNumber, arg_storeCasmHashMetadata_protocolVersion, arg_storeCasmHashMetadata_stateUpdate, arg_storeCasmHashMetadata_newClasses, calls_WriteChainHeight, arg_WriteChainHeight_w, arg_WriteChainHeight_height
+//@   assigns core.calls_BucketPut, core.arg_BucketPut_database, core.arg_BucketPut_value, core.l1Hashed, core.calls_WriteL1HandlerTxnHashByMsgHash, core.arg_WriteL1HandlerTxnHashByMsgHash_w, core.arg_WriteL1HandlerTxnHashByMsgHash_msgHash, core.arg_WriteL1HandlerTxnHashByMsgHash_l1HandlerTxnHash, calls_WriteBlockHeader, arg_WriteBlockHeader_w, arg_WriteBlockHeader_header, calls_WriteTxs, arg_WriteTxs_w, arg_WriteTxs_blockNumber, arg_WriteTxs_transactions, arg_WriteTxs_receipts, calls_WriteStateUpdate, arg_WriteStateUpdate_w, arg_WriteStateUpdate_blockNum, arg_WriteStateUpdate_stateUpdate, calls_WriteCommitment, arg_WriteCommitment_w, arg_WriteCommitment_blockNum, arg_WriteCommitment_commitment, calls_WriteL1Msgs, arg_WriteL1Msgs_w, arg_WriteL1Msgs_txns, calls_storeCasmHashMetadata, arg_storeCasmHashMetadata_reader, arg_storeCasmHashMetadata_writer, arg_storeCasmHashMetadata_blockNumber, arg_storeCasmHashMetadata_protocolVersion, arg_storeCasmHashMetadata_stateUpdate, arg_storeCasmHashMetadata_newClasses, calls_WriteChainHeight, arg_WriteChainHeight_w, arg_WriteChainHeight_height
 //@   callsite WriteBlockHeader@*: this_block_into_the_batch: $0 == writer && $1 == block.Header
 //@   callsite WriteTransactionsAndReceipts@*: this_block_into_the_batch: $0 == writer && $1 == block.Number && $2 == block.Transactions && $3 == block.Receipts
 //@   callsite WriteStateUpdateByBlockNum@*: this_block_into_the_batch: $0 == writer && $1 == block.Number && $2 == stateUpdate
